@@ -48,6 +48,9 @@ def corpus():
         {"kind": "deser", "text": b"1,2\n\n3,4\n"},
         {"kind": "deser", "text": b"1,2,3"},
         {"kind": "lp_raw", "stream": b"3\nabcdXne\nzz", "lens": [4, 3]},
+        # a stream failing after its chunks, whole response in ONE read (socket medium coalescing)
+        {"kind": "cdec", "version": 3, "lens": [],
+         "resp": {"ok": True, "args": [b"ok"], "kind": "stream", "chunks": [b"a", b"bc"], "err": [b"error", b"x"]}},
         sc.E2E_WITNESS,      # regression: stream error before the first chunk (fixed by 737004f)
         {"kind": "rh", "events": [["h"], ["o", b"S"], ["s", [b"ok"]], ["o", b"E"], ["s", [b"error", b"boom"]], ["e"]]},
     ]
@@ -76,6 +79,7 @@ def _small_cases(rng, tier):
         yield {"kind": "dtuple", "line": sc.rbytes(rng, rng.randint(0, 8), b"a\x01\n")}
         yield {"kind": "deser", "text": sc.rbytes(rng, rng.randint(0, 10), b"01,\n9")}
     yield from sc.gen_rh(rng, tier)
+    yield from sc.gen_cdec(rng, tier)
     yield from sc.gen_e2e(rng, tier)
 
 
@@ -100,6 +104,8 @@ def oracle(inp, obs):
     k = inp["kind"]
     if k in ("big", "big_enc"):
         return _oracle_big(inp, obs)
+    if k == "cdec":
+        return sc.oracle_cdec(inp, obs)
     if k == "lp":
         last = obs[1][-1]
         body = b"".join(o[2] for o in obs[1])
